@@ -303,7 +303,7 @@ fn g_value_mismatch(g: &Gad) -> Option<(usize, String)> {
 
 pub fn props() -> Vec<(Box<dyn PropDyn>, u32, u32)> {
     let _ = pick;
-    vec![(Box::new(Prop::new("exact", case_strategy, check).shrink(400)), 6000, 120000)]
+    vec![(Box::new(Prop::new("exact", case_strategy, check).shrink(400)), 30000, 400000)]
 }
 
 pub fn describe(ctx: &Ctx) {
